@@ -8,6 +8,7 @@ package vnet
 // Machine-checked contracts for /verif (govc).  Comment-only.
 
 //@ arith int
+//@ field UDPConn readCh nonnilchan
 
 // ---- ghost call protocol of NIC.onInboundChunk: a log of (receiver, chunk) pairs, one entry per call.
 //@ ghost global fwdN mathint
@@ -33,4 +34,43 @@ package vnet
 //@   ensures [always] f.chance >= 100 ==> fwdN == old(fwdN)
 //@   ensures [log] forall k mathint :: {fwdNIC[k]} k < old(fwdN) ==> fwdNIC[k] == old(fwdNIC[k]) && fwdChunk[k] == old(fwdChunk[k])
 
+// ---- Chunk interface (observers are pure)
+//@ func (c Chunk) UserData() (r []byte)
+//@   pure
+//@ func (c Chunk) SourceAddr() (r net.Addr)
+//@   pure
+//@   ensures r != nil
+//@ func (c Chunk) DestinationAddr() (r net.Addr)
+//@   pure
+//@   ensures r != nil
+
+// ---- UDP sockets: read deadline (C10)
+//@ pure isTimeout(err error) bool = typeis(err, *net.OpError) && typeis(ptr(err, *net.OpError).Err, *timeoutError)
+
+//@ func (c *UDPConn) ReadFrom(p []byte) (n int, addr net.Addr, err error)
+//@   requires c.readDeadline != nil && c.readCh != nil && c.locAddr != nil
+//@   modifies p[*], rdExpired, rdLast
+//@   ghost after Done#1: rdExpired = closed(result$); rdLast = result$
+//@   ghost after Done#2: rdLast = result$
+//@   ensures [deadline.persist] rdExpired ==> n == 0 && isTimeout(err)
+//@   ensures [deadline.nospurious] isTimeout(err) ==> n == 0 && closed(rdLast)
+//@   ensures [n] 0 <= n && n <= len(p)
+
+//@ func (c *UDPConn) Read(b []byte) (n int, err error)
+//@   requires c.readDeadline != nil && c.readCh != nil && c.locAddr != nil
+//@   modifies b[*], rdExpired, rdLast
+//@   ensures [deadline.persist] rdExpired ==> n == 0 && isTimeout(err)
+//@   ensures [deadline.nospurious] isTimeout(err) ==> n == 0 && closed(rdLast)
+
+//@ func (c *UDPConn) SetReadDeadline(t time.Time) (err error)
+//@   requires c.readDeadline != nil
+//@   modifies lastUntil
+//@   ensures [nil] err == nil
+
+//@ func (c *UDPConn) SetDeadline(t time.Time) (err error)
+//@   requires c.readDeadline != nil
+//@   modifies lastUntil
+//@   ensures [nil] err == nil
+
+//@ property C10: UDPConn.ReadFrom, UDPConn.Read, UDPConn.SetReadDeadline, UDPConn.SetDeadline
 //@ property C16: NewLossFilter, LossFilter.onInboundChunk
